@@ -29,6 +29,9 @@ impl Prop for C02 {
     fn id(&self) -> &'static str {
         "C02"
     }
+    fn fuzz_target(&self) -> Option<&'static str> {
+        Some("fz_choices")
+    }
     fn stream_len(&self, _tier: Tier) -> usize {
         500
     }
